@@ -262,6 +262,7 @@ type resumeDef struct {
 	Channel     string   `json:"channel,omitempty"`
 	WithContact bool     `json:"with_contact"`
 	Attachment  bool     `json:"attachment"`
+	FlipPolicy  bool     `json:"flip_policy,omitempty"` // carries the session's environment with the OTHER redaction_policy
 }
 
 type scenario struct {
@@ -281,6 +282,17 @@ type scenario struct {
 	Tpl         [7]string   `json:"templates"`
 	Resumes     []resumeDef `json:"resumes"`
 	Country     string      `json:"default_country"`
+	// the assets are loaded with an environment whose policy is the opposite of the trigger's environment
+	AssetsPolicyOpposite bool `json:"assets_policy_opposite,omitempty"`
+}
+
+func (sc *scenario) hasFlip() bool {
+	for _, r := range sc.Resumes {
+		if r.FlipPolicy {
+			return true
+		}
+	}
+	return false
 }
 
 func (sc *scenario) chans() []chanDef { return chanVariants[sc.ChanVariant].chans }
@@ -414,7 +426,33 @@ func genScenario(r *hx.Rand, id int) *scenario {
 		}
 		sc.Resumes = append(sc.Resumes, rd)
 	}
+	fr := r.Fork("flip")
+	sc.AssetsPolicyOpposite = fr.Chance(1, 4)
+	if len(sc.Resumes) > 0 && fr.Chance(1, 3) {
+		// the org turns anonymous (or stops being so) while the contact is mid-flow: one resume brings the same
+		// environment with the other policy.  Nothing URN-derived is stored before it (plain templates, no
+		// webhook, no field), so that after none->urns the whole context must again be equal between twins.
+		k := fr.Intn(len(sc.Resumes))
+		sc.Resumes[k].FlipPolicy = true
+		sc.makePreFlipPlain(fr)
+	}
 	return sc
+}
+
+// makePreFlipPlain: the nodes executed before the first wait evaluate no URN-derived template
+func (sc *scenario) makePreFlipPlain(r *hx.Rand) {
+	for _, i := range []int{0, 1, 2, 3, 5, 6} {
+		sc.Tpl[i] = "plain text"
+	}
+	sc.Tpl[4] = hx.Pick(r, flowTemplates[:10])
+	sc.Webhook = false
+	sc.SetField = false
+	for i := range sc.Resumes {
+		if sc.Resumes[i].FlipPolicy {
+			break
+		}
+		sc.Resumes[i].FlipPolicy = false
+	}
 }
 
 // corpus: hand-made scenarios that run first.  The "divergent" ones make the twin tel URNs choose different
@@ -471,6 +509,19 @@ func corpusScenarios() []*scenario {
 	zp.Trigger = "flow_action"
 	zp.Parent = &contactDef{UUID: parentCUUID, ID: 0, Name: "", Slots: []urnSlot{fixed("tel", "tel:+12065553333", "tel:+12065554444")}, Fields: map[string]any{}}
 	out = append(out, zp)
+	// POLICY SWITCH mid-flow: the first resume carries the same environment with the other redaction policy
+	fl := base("policy-switch-on-first-resume", 0, "", fixed("tel", "tel:+12065551212", "tel:+12065559876"), fixed("twitterid", "twitterid:54784326227#nyaruka", "twitterid:11223344556#other"))
+	fl.Resumes[0].FlipPolicy = true
+	fl.Resumes[1].WithContact = false
+	fl.makePreFlipPlain(hx.NewRand(1))
+	fl.Tpl[4] = flowTemplates[0]
+	out = append(out, fl)
+	fl2 := base("policy-switch-on-second-resume-assets-env-opposite", 2, "Ann", fixed("tel", "tel:+250788123123", "tel:+250788999888"))
+	fl2.Resumes[1].FlipPolicy = true
+	fl2.AssetsPolicyOpposite = true
+	fl2.makePreFlipPlain(hx.NewRand(2))
+	fl2.Tpl[4] = flowTemplates[1]
+	out = append(out, fl2)
 	for i, sc := range out {
 		sc.ID = -1 - i
 	}
@@ -592,9 +643,9 @@ func (sc *scenario) triggerJSON(side int, redact bool) []byte {
 func (sc *scenario) resumeJSON(i int, side int, redact bool) []byte {
 	rd := sc.Resumes[i]
 	m := map[string]any{"type": rd.Type, "resumed_on": fmt.Sprintf("2000-01-01T00:0%d:00.000000000-00:00", i+1)}
-	if rd.WithContact {
+	if rd.WithContact || rd.FlipPolicy {
 		m["contact"] = sc.Contact.json(side)
-		m["environment"] = envJSON(sc, redact)
+		m["environment"] = envJSON(sc, redact) // redact = the policy in force from this resume on
 	}
 	if rd.Type == "msg" {
 		msg := map[string]any{"uuid": fmt.Sprintf("2d611e17-fb22-457f-b802-b8f7ec5cda%02d", i), "text": rd.Text}
